@@ -12,6 +12,7 @@
 -/
 import BufrModel.Basic.Desc
 import BufrModel.Gen.PyTables
+import BufrModel.Lemmas.BuildSrc
 namespace Bufr
 open PyGen.tables
 
@@ -77,5 +78,52 @@ theorem C14_src_build_dispatch_partial (T : Tables) (depth : Nat) (id : Nat) (re
 example : build_is_sequence 301011 = true ∧ build_is_operator 201129 = true ∧ build_is_operator 301011 = true ∧
     build_is_replication 101000 = true ∧ replication_is_delayed 101000 = true ∧ replication_is_delayed 103002 = false ∧
     build_is_replication 31001 = false := by decide
+
+/-! ### the whole builder (`_descriptors_from_ids_iter`, `TableR.lookup`) -/
+
+open Bufr.BuildSrc in
+/-- **Template building as translated from the source is the model's `buildD`.**  The generated
+    `_descriptors_from_ids_iter` (the id iterator as the list of remaining ids: `next_id()` takes the head, its
+    `StopIteration` is the empty list; `generate_quiet(range(n_items), next_id)` handed to the recursive call is
+    the next `n_items` ids, fewer when the list runs out; a replication descriptor is created by the translated
+    `TableR.lookup`, receives its factor from Table B first when it is a delayed one and then its members from the
+    recursive call) run on the table group of `T` as lookup functions (`envOf`: Table B, Table C, and Table D as the
+    sequence objects built when the tables were loaded) returns, for EVERY id list and every fuel above its length,
+    the object tree (`reprL`) of what `buildD T (depth + 1)` returns; and it raises `StopIteration` — the missing
+    factor of a delayed replication at the end of its iterator — exactly when `buildD` fails.  No other exception,
+    no running out of fuel (the Python loop and recursion terminate).
+    Hypothesis `Loads T depth`: every sequence of Table D builds within `depth` levels (the table group could be
+    loaded; Python builds all sequences in `TableD.__init__`).  The tree stands for Python's object graph under the
+    assumption that descriptor objects are not mutated after the tables are loaded (sharing of a sequence object
+    between templates is then unobservable; the C13 heap audit checks it at run time). -/
+theorem C14_src_build_eq (T : Tables) (depth : Nat) (hL : Loads T depth) (ids : List Nat) (fuel : Nat)
+    (hf : ids.length < fuel) :
+    _descriptors_from_ids_iter (envOf T depth) fuel (ids.map Int.ofNat) =
+      match buildD T (depth + 1) ids with
+      | .ok r => .ok (reprL r)
+      | .error _ => .error (.raised "StopIteration") := by
+  unfold _descriptors_from_ids_iter
+  rw [loop_eq T depth hL fuel ids [] hf]
+  cases buildD T (depth + 1) ids <;> simp [outcome]
+
+open Bufr.BuildSrc in
+/-- the same for the model's `build` (the depth the driver uses) -/
+theorem C14_src_build_eq_default (T : Tables) (hL : Loads T (defaultDepth - 1)) (ids : List Nat) :
+    _descriptors_from_ids_iter (envOf T (defaultDepth - 1)) (ids.length + 1) (ids.map Int.ofNat) =
+      match build T ids with
+      | .ok r => .ok (reprL r)
+      | .error _ => .error (.raised "StopIteration") :=
+  C14_src_build_eq T (defaultDepth - 1) hL ids (ids.length + 1) (by omega)
+
+open Bufr.BuildSrc in
+/-- the hypothesis is satisfiable (a table group without sequences loads at every depth) -/
+example : Loads { b := fun _ => none, d := fun _ => none } 5 := by
+  intro id ms h; cases h
+
+open Bufr.BuildSrc in
+/-- a delayed replication at the end of the id list: the factor is missing, `StopIteration` escapes
+    (checked on the real function: `_descriptors_from_ids(b, c, r, d, [101000])` raises StopIteration) -/
+example : _descriptors_from_ids_iter (envOf { b := fun _ => none, d := fun _ => none } 5) 3 [101000] =
+    .error (.raised "StopIteration") := by rfl
 
 end Bufr
